@@ -252,13 +252,20 @@ Theorem C11_F9_refuted :
 Proof. exact F9_refuted. Qed.
 Print Assumptions C11_F9_refuted.
 
-(** Key cache of the jwt authenticator: for every history of tokens — any claimed
-    issuers, key ids and signing keys, templated or literal JWKS URL — a token
-    is verified with the cache exactly as without it (the key comes from the
-    JWKS URL rendered for this token's issuer), unless two pre-images can be
-    shifted against each other *)
-Theorem C11_jk_cache_transparent : forall H w h,
-  (forall x y, H x = H y -> x = y) -> g_jk_F4 H h = false ->
-  map sr_out (jk_run H w [] h) = map (fun x => jk_fresh w (fst x) (snd x)) h.
+(** Key cache of the jwt authenticator: for every history of tokens at any instances — any
+    claimed issuers, key ids and signing keys, templated or literal JWKS URL — a token is
+    verified with the cache exactly as without it (with the key published at the JWKS URL
+    rendered for this token's issuer, validated as this instance demands), unless two
+    pre-images collide (F4) or — without the candidate repair [fx11] — two instances that
+    differ in validate_jwk share a key (guard of C11-F11) *)
+Theorem C11_jk_cache_transparent : forall fx11 H w h,
+  (forall x y, H x = H y -> x = y) -> g_jk_F4 H h = false -> (fx11 = true \/ g_F11 H h = false) ->
+  map sr_out (jk_run fx11 H w [] h) = map (fun x => jk_fresh w (fst x) (snd x)) h.
 Proof. exact jk_cache_transparent. Qed.
 Print Assumptions C11_jk_cache_transparent.
+
+Theorem C11_F11_refuted :
+  exists w a b, (forall H, g_F11 H [a; b] = true) /\
+    forall H, map sr_out (jk_run false H w [] [a; b]) <> map (fun x => jk_fresh w (fst x) (snd x)) [a; b].
+Proof. exact F11_refuted. Qed.
+Print Assumptions C11_F11_refuted.
